@@ -177,6 +177,16 @@ func (ev *Eval) intTerm(v Val, like Val) string {
 	return ev.term(v)
 }
 
+// typePkg: the package in whose scope type names of the current contract are resolved.
+func (ev *Eval) typePkg() *types.Package {
+	if ev.calleePkg != "" {
+		if p := ev.g.typesPkg(ev.calleePkg); p != nil {
+			return p
+		}
+	}
+	return ev.pkg
+}
+
 func (ev *Eval) lookupType(name string) types.Type {
 	try := func(p *types.Package) types.Type {
 		if p == nil {
@@ -899,6 +909,18 @@ func (ev *Eval) callExpr(x *ECall) Val {
 		ks, vs := s.sortOf(mt.Key()), s.sortOf(mt.Elem())
 		k := ev.term(ev.coerce(ev.eval(x.Args[1]), mt.Key()))
 		return Val{Term: "(and (not " + s.mapPart(ks, vs, "mnil", cur) + ") (select " + s.mapPart(ks, vs, "mhas", cur) + " " + k + "))", T: boolT}
+	case "isptrto":
+		// isptrto(x, T): the dynamic type of interface value x is *T (and x is not nil)
+		if len(x.Args) == 2 {
+			v := ev.eval(x.Args[0])
+			tn := exprString(x.Args[1])
+			t := ev.g.parseTypeExpr(tn, ev.typePkg())
+			if t == nil {
+				ev.fail("isptrto: unknown type %s", tn)
+			}
+			id := s.typeID(types.NewPointer(t))
+			return Val{Term: fmt.Sprintf("(and (not (= %s 0)) (= (ityp %s) %d))", v.Term, v.Term, id), T: boolT}
+		}
 	case "visited":
 		// visited(k): the enclosing range-over-map loop has already produced key k
 		if ev.resolve != nil && len(x.Args) == 1 {
